@@ -16,7 +16,7 @@
     does not state, and C10m_*_same_as_serial conclude: the generator every rank stores with iteration i is the
     generator the serial run from the same checkpoint stores with iteration i (for any two callbacks, whenever
     both runs perform iteration i).  C10m_loop_stored is the generic form for any instance of the MPI loop.
-    NOT proved here: anything about undefined runs; the raw-draw cost per canonical number (C10_usage_predictor). *)
+    NOT proved here: anything about undefined runs; the raw-draw cost per canonical number (C10_usage_is_cost). *)
 From Coq Require Import ZArith NArith List Bool.
 From HepMC Require Import Num NumB Translated Result Accum VegasPdf Discrete MultiChannel Helper Iter Chkpt Callback Run Mpi
   Lemmas_Run Lemmas_C16 Lemmas_C10 Lemmas_C12 Lemmas_C04 Lemmas_C19 Lemmas_C12m Lemmas_C10m.
